@@ -189,6 +189,82 @@ def _keyed_memos(repo, sink, gb):
                                    "which the value is computed from: two grids that differ only there share one entry (the second gets the first one's value)")
 
 
+C14_READERS = ("points", "cells", "cell_centers", "data_points", "data_shape", "data_axes", "data_size", "cell_axes", "dims", "dim",
+               "point_count", "cell_count", "axes", "order", "data_location", "cell_types", "cell_node_counts", "mesh_dim")
+C15_READERS = ("to_canonical", "from_canonical", "get_transform_to", "compatible_with", "axes_increase", "axes_reversed")
+
+
+def r31d_c14(repo, sink):
+    _eager_derived(repo, sink, repo.cls("GridBase"), C14_READERS)
+
+
+def r31d_c15(repo, sink):
+    _eager_derived(repo, sink, repo.cls("GridBase"), C15_READERS)
+
+
+def _eager_derived(repo, sink, gb, readers):
+    """State a grid constructor derives from other attributes (`self._x = f(self._y)`): whoever assigns `_y` later - a method of
+    the class or foreign code patching a freshly built grid (`grid._y = ...`) - has to bring `_x` up to date in the same
+    function, otherwise the derived value describes the grid as it was constructed."""
+    for c in repo.all_classes():
+        if not repo.is_subclass(c, gb):
+            continue
+        init = c.methods.get("__init__")
+        if init is None:
+            continue
+        assigned = []
+        for st in fn_walk(init.node):
+            if isinstance(st, ast.Assign) and len(st.targets) == 1 and self_attr(st.targets[0]):
+                assigned.append((self_attr(st.targets[0]), st))
+        names = {a for a, _ in assigned}
+        used = set()
+        for r in readers:
+            f = repo.resolve(c, r, "getter") or repo.resolve(c, r, "method")
+            if f is not None:
+                for s_ in body_of(f.node):
+                    used |= _read_fields(repo, c, f.cls, s_, {f.qualname})
+        sink.check(True, "R31d", f"derived-state:scanned:{c.name}", (c.file, init.node.lineno),
+                   ok=f"{len(used & names)} constructor-assigned fields of {c.name} reach the readers {readers[:4]}...; each derived one is checked against later writers of its sources")
+        for x, st in assigned:
+            if x not in used:
+                continue
+            deps = (_read_fields(repo, c, c, st.value, set()) & names) - {x}
+            if not deps:
+                continue
+            # later writers of a dependency
+            for m in repo.modules.values():
+                for fn in [n for n in ast.walk(m.tree) if isinstance(n, ast.FunctionDef)]:
+                    if fn is init.node:
+                        continue
+                    writes = {}
+                    for n in ast.walk(fn):
+                        if isinstance(n, ast.Assign):
+                            for t in n.targets:
+                                if isinstance(t, ast.Attribute) and isinstance(t.value, ast.Name) and t.attr in deps | {x}:
+                                    writes.setdefault(t.value.id, set()).add(t.attr)
+                    for recv, attrs in writes.items():
+                        hit = attrs & deps
+                        if not hit:
+                            continue
+                        if recv == "self":
+                            owner = getattr(fn, "_parent", None)
+                            if not (isinstance(owner, ast.ClassDef) and repo.has_cls(owner.name) and (repo.is_subclass(repo.cls(owner.name), c) or repo.is_subclass(c, repo.cls(owner.name)))):
+                                continue
+                            if fn.name == "__init__":
+                                continue  # (a subclass constructor assigns before / through the base constructor)
+                        else:
+                            # foreign write: only where the object is a freshly built instance of this class (or a subclass)
+                            built = [n2 for n2 in ast.walk(fn) if isinstance(n2, ast.Assign) and any(isinstance(t2, ast.Name) and t2.id == recv for t2 in n2.targets)
+                                     and isinstance(n2.value, ast.Call) and isinstance(n2.value.func, ast.Name) and repo.has_cls(n2.value.func.id)
+                                     and repo.is_subclass(repo.cls(n2.value.func.id), c)]
+                            if not built:
+                                continue
+                        sink.check(x in attrs, "R31d", f"derived-state:{c.name}.{x}:{fn.name}", (m.relpath, fn.lineno),
+                                   ok=f"{fn.name} assigns {sorted(hit)} and brings {x} (derived from it in {c.name}.__init__) up to date",
+                                   bad=f"{fn.name} assigns {sorted(hit)} of a {c.name} after construction, but {c.name}.__init__ derived self.{x} from it "
+                                       f"(`{U(st)[:90]}`) and nothing recomputes it: the grid keeps the value of its construction (stale layout information)")
+
+
 def _direct_reads(expr):
     return {n.attr for n in ast.walk(expr) if isinstance(n, ast.Attribute) and isinstance(n.value, ast.Name) and n.value.id == "self"}
 
@@ -463,6 +539,14 @@ class _LayoutInterp(FinamInterp):
         if short == "array_equal":
             a, b = args
             return list(a) == list(b)
+        # boolean configuration vectors (axis directions): concrete values
+        if short in ("logical_not", "invert") and isinstance(args[0], (list, tuple)) and all(isinstance(x, bool) for x in args[0]):
+            return [not x for x in args[0]]
+        if short in ("flatnonzero", "nonzero", "where") and len(args) == 1 and isinstance(args[0], (list, tuple)) and all(isinstance(x, bool) for x in args[0]):
+            idx = [i for i, x in enumerate(args[0]) if x]
+            return idx if short == "flatnonzero" else (idx,)
+        if short in ("asarray", "array") and isinstance(args[0], (list, tuple)) and all(isinstance(x, bool) for x in args[0]):
+            return list(args[0])
         return super().ext_call(name, args, kwargs, node)
 
 
@@ -1157,12 +1241,27 @@ class _WholeCells(_CellInterp):
 
     # dims are the point counts P_k = N_k + 1 > 1
     def compare(self, op, left, right, node):
+        if left in self.n_syms and isinstance(right, int) and not isinstance(right, bool) and type(op) in (ast.Gt, ast.GtE, ast.Lt, ast.LtE, ast.Eq, ast.NotEq):
+            # N_k >= 1
+            decided = {ast.Gt: True if right <= 0 else None, ast.GtE: True if right <= 1 else None, ast.Lt: False if right <= 1 else None,
+                       ast.LtE: False if right <= 0 else None, ast.Eq: False if right <= 0 else None, ast.NotEq: True if right <= 0 else None}[type(op)]
+            if decided is not None:
+                return decided
+        if isinstance(left, int) and not isinstance(left, bool) and right in self.n_syms and type(op) in (ast.Gt, ast.GtE, ast.Lt, ast.LtE):
+            flip = {ast.Gt: ast.Lt, ast.GtE: ast.LtE, ast.Lt: ast.Gt, ast.LtE: ast.GtE}[type(op)]
+            return self.compare(flip(), right, left, node)
         if isinstance(left, Sym) and left.op == "P" and isinstance(right, int) and isinstance(op, (ast.Gt, ast.GtE, ast.Lt, ast.LtE, ast.Eq, ast.NotEq)):
             return {ast.Gt: right <= 1, ast.GtE: right <= 2, ast.Lt: False, ast.LtE: False, ast.Eq: False, ast.NotEq: True}[type(op)] \
                 if right <= 2 or isinstance(op, (ast.Lt, ast.LtE, ast.Eq, ast.NotEq)) else super().compare(op, left, right, node)
         return super().compare(op, left, right, node)
 
     def binop(self, op, left, right, node):
+        if isinstance(op, ast.FloorDiv) and right == 1 and isinstance(left, Sym):
+            return left
+        if isinstance(op, ast.Mod) and right == 1 and isinstance(left, Sym):
+            return 0
+        if isinstance(op, ast.Mult) and (right == 1 or left == 1) and isinstance(left if right == 1 else right, Sym):
+            return left if right == 1 else right
         if isinstance(op, ast.Sub) and isinstance(left, Sym) and left.op == "P" and right == 1:
             return self.n_syms[left.args[0]]  # P_k - 1 = N_k
         if isinstance(op, (ast.Add, ast.Sub)) and isinstance(right, int) and not isinstance(right, bool) and self._pk(left) is not None:
@@ -1344,7 +1443,21 @@ def r32e_gen_cells(repo, sink):
     N = [Sym("N0"), Sym("N1"), Sym("N2")]
     I = [Sym("i"), Sym("j"), Sym("k")]
     P = [Sym("P", 0), Sym("P", 1), Sym("P", 2)]
+    cases = []
     for md in (1, 2, 3):
+        cases.append((md, list(P[:md]), f"cell-corners:{md}D", ""))
+        # flat axes (a single point) carry no cells: wherever they stand among the extents, the cells are those of the grid without them
+        if md < 3:
+            for pos in range(md + 1):
+                dims = list(P[:md])
+                dims.insert(pos, 1)
+                cases.append((md, dims, f"cell-corners:{md}D:flat-axis-at-{pos}", f" (extents {['1' if d == 1 else 'n' for d in dims]}, one flat axis)"))
+        if md == 1:
+            for pos in range(3):
+                dims = [1, 1, 1]
+                dims[pos] = P[0]
+                cases.append((md, dims, f"cell-corners:1D:only-axis-{pos}", f" (extents {['1' if d == 1 else 'n' for d in dims]}, two flat axes)"))
+    for md, dims_in, ckey, cdesc in cases:
         r = I[0]
         if md >= 2:
             r = Sym("add", r, Sym("mul", N[0], I[1]))
@@ -1352,12 +1465,12 @@ def r32e_gen_cells(repo, sink):
             r = Sym("add", r, Sym("mul", Sym("mul", N[0], N[1]), I[2]))
         it = _WholeCells(repo, N)
         try:
-            table = it.run(gc, [P[:md]], {"order": "F"})
+            table = it.run(gc, [dims_in], {"order": "F"})
         except (AnalysisError, Undecided, Raised) as exc:
-            sink.unknown("R32", f"cell-corners:{md}D", gc, f"gen_cells outside vocabulary: {exc}")
+            sink.unknown("R32", ckey, gc, f"gen_cells outside vocabulary{cdesc}: {exc}")
             continue
         if not isinstance(table, _CellTable) or len(table.cols) != 2 ** md:
-            sink.unknown("R32", f"cell-corners:{md}D", gc, f"expected a table of {2 ** md} corner columns, got {table!r}")
+            sink.unknown("R32", ckey, gc, f"expected a table of {2 ** md} corner columns{cdesc}, got {table!r}")
             continue
         n0, n1 = _Poly.atom(N[0]), _Poly.atom(N[1])
         weights = [n0, n0 * n1]
@@ -1380,14 +1493,14 @@ def r32e_gen_cells(repo, sink):
         try:
             got = [red(table.cols[m]) for m in sorted(table.cols)]
         except _Opaque as exc:
-            sink.bad("R32", f"cell-corners:{md}D", gc,
-                     f"{md}D cells: a corner formula does not reduce to a point id of the cell ({exc}): cells reference wrong or "
+            sink.bad("R32", ckey, gc,
+                     f"{md}D cells{cdesc}: a corner formula does not reduce to a point id of the cell ({exc}): cells reference wrong or "
                      "non-existing points unless the cell counts per direction happen to coincide")
             continue
         ok = set(got) == want and len(set(got)) == 2 ** md
-        sink.check(ok, "R32", f"cell-corners:{md}D", gc,
-                   ok=f"{md}D cells: the {2 ** md} node columns are exactly the corners of cell (i,j,k) in the Fortran-ordered point grid",
-                   bad=f"{md}D cells: node columns reduce to {sorted(map(repr, got))}, the corners of cell (i,j,k) are {sorted(map(repr, want))}")
+        sink.check(ok, "R32", ckey, gc,
+                   ok=f"{md}D cells{cdesc}: the {2 ** md} node columns are exactly the corners of cell (i,j,k) in the Fortran-ordered point grid",
+                   bad=f"{md}D cells{cdesc}: node columns reduce to {sorted(map(repr, got))}, the corners of cell (i,j,k) are {sorted(map(repr, want))}")
     # order 'C': node ids re-labelled F->C, rows re-ordered to C; order 'F' untouched
     why, unknown = None, None
     for md in (2, 3):
